@@ -19,6 +19,7 @@ type node struct {
 	kind string // leaf kinds: nil,bool,int,int8,int16,int64,uint,uint16,uint32,uint64,byte,float32,float64,complex64,complex128,rune,string
 	//             containers over any: slice,gomap,array,list,set,stack,queue,catalog,map,assoc
 	//             typed containers: ints ([]int), strs ([]string), flts ([]float64), msi (map[string]int), lint (List[int]), sstr (Set[string]), iis ([][]int)
+	//             msa (map[string]any), mapsa (Map[string, any]): typed keys, values under any (nil values allowed)
 	//             nilslice ([]any(nil)), nilmap (map[any]any(nil)), cyc (self-containing List[any], depth in prim)
 	prim any
 	kids []*node
@@ -87,7 +88,16 @@ func genLeaf(r *rng, kind string, allowNaN bool) *node {
 }
 
 var anyContainers = []string{"slice", "gomap", "array", "list", "set", "stack", "queue", "catalog", "map", "assoc"}
-var typedContainers = []string{"ints", "strs", "flts", "msi", "lint", "sstr", "iis"}
+var typedContainers = []string{"ints", "strs", "flts", "msi", "lint", "sstr", "iis", "msa", "mapsa"}
+
+// kinds that are key/value collections (keys in kids, values in vals); msa = map[string]any, mapsa = Map[string, any]
+func isMapKind(k string) bool {
+	switch k {
+	case "gomap", "map", "catalog", "msi", "msa", "mapsa":
+		return true
+	}
+	return false
+}
 
 type genOpts struct {
 	allowNaN     bool
@@ -137,7 +147,11 @@ func genContainer(r *rng, k string, depth int, o genOpts) *node {
 				continue
 			}
 			n.kids = append(n.kids, key)
-			n.vals = append(n.vals, genNode(r, depth-1, o))
+			if r.chance(1, 6) {
+				n.vals = append(n.vals, &node{kind: "nil"}) // a key that is present with a nil value
+			} else {
+				n.vals = append(n.vals, genNode(r, depth-1, o))
+			}
 		}
 	case "set":
 		// a set of values of one leaf kind (elements must be mutually rankable)
@@ -190,6 +204,24 @@ func genTyped(r *rng, k string, o genOpts) *node {
 	case "iis":
 		for i := 0; i < size; i++ {
 			n.kids = append(n.kids, genTyped(r, "ints", o))
+		}
+	case "msa", "mapsa":
+		for i := 0; i < size; i++ {
+			key := genLeaf(r, "string", false)
+			dup := false
+			for _, e := range n.kids {
+				if sameKey(e, key) {
+					dup = true
+				}
+			}
+			if !dup {
+				n.kids = append(n.kids, key)
+				if r.chance(1, 4) {
+					n.vals = append(n.vals, &node{kind: "nil"})
+				} else {
+					n.vals = append(n.vals, genNode(r, 1, o))
+				}
+			}
 		}
 	}
 	return n
@@ -343,6 +375,18 @@ func build(n *node, r *rng) any {
 			m[n.kids[i].prim.(string)] = int(n.vals[i].prim.(int64))
 		}
 		return m
+	case "msa":
+		m := map[string]any{}
+		for _, i := range order(len(n.kids)) {
+			m[n.kids[i].prim.(string)] = build(n.vals[i], r)
+		}
+		return m
+	case "mapsa":
+		m := col.Map[string, any](not).Make()
+		for _, i := range order(len(n.kids)) {
+			m.SetValue(n.kids[i].prim.(string), build(n.vals[i], r))
+		}
+		return m
 	case "iis":
 		out := make([][]int, len(n.kids))
 		for i, c := range n.kids {
@@ -370,7 +414,7 @@ func build(n *node, r *rng) any {
 
 func hasMap(n *node) bool {
 	switch n.kind {
-	case "gomap", "map", "msi":
+	case "gomap", "map", "msi", "msa", "mapsa":
 		return true
 	}
 	for _, k := range n.kids {
@@ -398,7 +442,7 @@ func nesting(n *node) int {
 			d = x
 		}
 	}
-	if len(n.kids) == 0 && len(n.vals) == 0 && !isSeqKind(n.kind) && n.kind != "gomap" && n.kind != "map" && n.kind != "catalog" && n.kind != "msi" {
+	if len(n.kids) == 0 && len(n.vals) == 0 && !isSeqKind(n.kind) && !isMapKind(n.kind) {
 		return 0
 	}
 	if n.kind == "assoc" {
@@ -452,17 +496,26 @@ func mutate(r *rng, n *node, o genOpts) (*node, string, bool) {
 			// change one leaf to a different value of the same kind: half of the time to an
 			// immediate neighbour (next integer, next float, one byte more), where a lossy
 			// comparison (through a narrower or a floating type, a hash, a prefix) would not tell them apart
+			// (a changed KEY must stay different, under the ranking, from the other keys of its map: int8(2) -> int8(1)
+			// next to a key int(1) would leave the properties' universe - wfKeys)
+			old := x.prim
 			if r.chance(1, 2) {
 				if y := neighbourLeaf(r, x); y != nil && !sameLeaf(x, y) {
 					x.prim = y.prim
-					return c, "leaf-neighbour", true
+					if wfKeys(c) {
+						return c, "leaf-neighbour", true
+					}
+					x.prim = old
 				}
 			}
 			for k := 0; k < 10; k++ {
 				y := genLeaf(r, x.kind, false)
 				if !sameLeaf(x, y) {
 					x.prim = y.prim
-					return c, "leaf", true
+					if wfKeys(c) {
+						return c, "leaf", true
+					}
+					x.prim = old
 				}
 			}
 		case isSeqKind(x.kind):
@@ -505,11 +558,23 @@ func mutate(r *rng, n *node, o genOpts) (*node, string, bool) {
 				x.kids[i], x.kids[i+1] = x.kids[i+1], x.kids[i]
 				return c, "swap", true
 			}
-		case x.kind == "gomap" || x.kind == "map" || x.kind == "catalog" || x.kind == "msi":
+		case x.kind == "nil":
+			// a nil value (nil leaves are never keys) becomes a defined value, half of the time a zero value
+			// (0, "", false, a nil slice, a nil map): what a "nil means absent / nil means zero" shortcut would confuse
+			*x = *definedLeaf(r)
+			return c, "nil-to-defined", true
+		case isMapKind(x.kind):
 			if len(x.kids) == 0 {
 				continue
 			}
 			i := r.intn(len(x.kids))
+			// prefer an entry whose value is nil: a renamed key under a nil value is only noticed when
+			// "present with a nil value" is told apart from "absent"
+			for j := range x.vals {
+				if x.vals[j].kind == "nil" && r.chance(1, 2) {
+					i = j
+				}
+			}
 			// rename one key to a fresh key of the same kind
 			for k := 0; k < 10; k++ {
 				y := genLeaf(r, x.kids[i].kind, false)
@@ -627,10 +692,16 @@ func genCollate(prop string, seed uint64, tier, outDir string, count int) error 
 			count = 6000
 		}
 	}
-	meta := genMeta{Property: prop, Seed: seed, Tier: tier, OpHist: map[string]int{}, OutHist: map[string]int{}, TypeHist: map[string]int{}, LenHist: map[string]int{}}
+	meta := genMeta{Property: prop, Seed: seed, Tier: tier, OpHist: map[string]int{}, OutHist: map[string]int{}, TypeHist: map[string]int{}, LenHist: map[string]int{}, Extra: map[string]any{}}
 	var cases []string
+	var predViol []map[string]any
 	seen := map[string]bool{}
 	for i := 0; i < count; i++ {
+		var caseBad []string
+		var pool []poolVal // values of this case (and neighbours of them) for the transitivity laws
+		firstKind, firstObs := "", ""
+		var firstA, firstB any
+		var firstNA, firstNB *node
 		maximum := 16
 		if r.chance(1, 4) {
 			maximum = 1 + r.intn(4)
@@ -645,7 +716,26 @@ func genCollate(prop string, seed uint64, tier, outDir string, count int) error 
 			note := "pair"
 			depth := 1 + r.intn(3)
 			na = genNode(r, depth, o)
+			nilFamily, nilEqual, relation := false, false, "unknown"
 			switch x := r.intn(10); {
+			case x >= 8:
+				// a nil value inside a container against "absent" / against a zero value (collatenil.go)
+				switch d := r.intn(10); {
+				case d < 2:
+					na, nb, note, nilEqual = genNeighbourFamily(r) // adjacent leaves, where a lossy comparison merges; extremes
+				case d < 3:
+					na, nb, note = genCrossKind(r) // leaves of different kinds that a conversion to the first one's width confuses
+				default:
+					na, nb, note, nilEqual = genNilFamily(r)
+				}
+				nilFamily = true
+				relation = "differ"
+				if nilEqual {
+					relation = "equal"
+				}
+				if strings.HasPrefix(note, "crosskind") {
+					relation = "unknown"
+				}
 			case x < 3:
 				nb = cloneNode(na) // independently rebuilt copy (maps in another insertion order)
 				note = "copy"
@@ -675,51 +765,110 @@ func genCollate(prop string, seed uint64, tier, outDir string, count int) error 
 			for try := 0; try < 20 && !compatibleNodes(na, nb); try++ {
 				nb = genSameShape(r, na, depth, o)
 				note = "pair"
+				nilFamily = false
 			}
 			if !compatibleNodes(na, nb) {
 				nb = cloneNode(na)
 				note = "copy"
+				nilFamily = false
 			}
 			a := build(na, r)
 			b := build(nb, r)
 			ea, eb := encValDepth(a, maximum+3), encValDepth(b, maximum+3)
-			kind := "rank"
-			var obs string
 			// compareMaps walks the first map in Go's random iteration order: when one entry is
 			// unequal and another exceeds the depth limit the outcome (false or panic) depends on
 			// that order, so such pairs are only ranked (rankMaps sorts the keys first)
 			orderDependent := (hasMap(na) || hasMap(nb)) && (nesting(na) >= maximum || nesting(nb) >= maximum)
-			if orderDependent || r.chance(1, 2) {
-				obs = doRank(cl, a, b)
+			// one call and its mirror (so that antisymmetry / symmetry is exercised on the implementation too)
+			emit := func(kind string) (string, string) {
+				var obs string
+				ctor := "CRank"
+				if kind == "rank" {
+					obs = doRank(cl, a, b)
+				} else {
+					ctor = "CCompare"
+					obs = doCompare(cl, a, b)
+				}
+				calls = append(calls, fmt.Sprintf("%s %s %s %s", ctor, ea, eb, obs))
+				h := fmt.Sprintf("%s(%s) %s  [max %d] => %s", kind, note, shortVal(a, b), maximum, obs)
+				human = append(human, h)
+				meta.OpHist[kind+":"+strings.Split(note, " ")[0]]++
+				meta.OutHist[obs]++
+				meta.TypeHist[na.kind]++
+				meta.Steps++
+				var obs2 string
+				if kind == "rank" {
+					obs2 = doRank(cl, b, a)
+				} else {
+					obs2 = doCompare(cl, b, a)
+				}
+				calls = append(calls, fmt.Sprintf("%s %s %s %s", ctor, eb, ea, obs2))
+				if obs2 == "None" {
+					human = append(human, fmt.Sprintf("%s(mirror) => %s [panic: %s]", kind, obs2, lastOtherPanic))
+				} else {
+					human = append(human, fmt.Sprintf("%s(mirror) => %s", kind, obs2))
+				}
+				meta.Steps++
+				return obs, obs2
+			}
+			askedKind := "rank"
+			var askedObs string
+			switch {
+			case nilFamily:
+				// both questions about the same pair
+				askedObs, _ = emit("rank")
+				if !orderDependent {
+					emit("compare")
+				}
+			case orderDependent || r.chance(1, 2):
+				askedObs, _ = emit("rank")
+			default:
+				askedKind = "compare"
+				askedObs, _ = emit("compare")
+			}
+			if k == 0 {
+				firstKind, firstObs, firstA, firstB, firstNA, firstNB = askedKind, askedObs, a, b, na, nb
+			}
+			// the property's own statements on the implementation's answers (collatepred.go)
+			caseBad = append(caseBad, pairLaws(cl, na, nb, a, b)...)
+			if nilFamily {
+				caseBad = append(caseBad, knownRelationLaws(cl, note, relation, na, nb, a, b)...)
+			}
+			if k < 2 {
+				pool = poolAdd(pool, na, a)
+				pool = poolAdd(pool, nb, b)
+				// further neighbours of the two values, so that the triples are not decided by the type names alone
+				for _, base := range []*node{na, nb} {
+					if len(pool) >= 6 || hasCyc(base) {
+						continue
+					}
+					if m, _, ok := mutate(r, base, o); ok {
+						pool = poolAdd(pool, m, build(m, r))
+					}
+				}
+			}
+		}
+		caseBad = append(caseBad, poolLaws(cl, pool)...)
+		if firstKind != "" {
+			// the first question again, after every other call of the case on the same collator
+			again := ""
+			if firstKind == "rank" {
+				again = doRank(cl, firstA, firstB)
 			} else {
-				kind = "compare"
-				obs = doCompare(cl, a, b)
+				again = doCompare(cl, firstA, firstB)
 			}
-			ctor := "CRank"
-			if kind == "compare" {
-				ctor = "CCompare"
+			if again != firstObs && again != "None" && firstObs != "None" && wfKeys(firstNA) && wfKeys(firstNB) {
+				caseBad = append(caseBad, fmt.Sprintf("the answer depends on earlier calls on the same collator: %s(a,b) was %s when asked first and %s when asked again after the %d other pairs of the case, for a = %s, b = %s",
+					firstKind, firstObs, again, ncalls-1, goSyntax(firstNA), goSyntax(firstNB)))
 			}
-			calls = append(calls, fmt.Sprintf("%s %s %s %s", ctor, ea, eb, obs))
-			h := fmt.Sprintf("%s(%s) %s  [max %d] => %s", kind, note, shortVal(a, b), maximum, obs)
-			human = append(human, h)
-			meta.OpHist[kind+":"+strings.Split(note, " ")[0]]++
-			meta.OutHist[obs]++
-			meta.TypeHist[na.kind]++
-			meta.Steps++
-			// the mirrored call, so that antisymmetry / symmetry is exercised on the implementation too
-			var obs2 string
-			if kind == "rank" {
-				obs2 = doRank(cl, b, a)
-			} else {
-				obs2 = doCompare(cl, b, a)
-			}
-			calls = append(calls, fmt.Sprintf("%s %s %s %s", ctor, eb, ea, obs2))
-			if obs2 == "None" {
-				human = append(human, fmt.Sprintf("%s(mirror) => %s [panic: %s]", kind, obs2, lastOtherPanic))
-			} else {
-				human = append(human, fmt.Sprintf("%s(mirror) => %s", kind, obs2))
-			}
-			meta.Steps++
+		}
+		caseBad = dedupStrings(caseBad)
+		if len(caseBad) > 6 {
+			caseBad = caseBad[:6]
+		}
+		if len(caseBad) > 0 {
+			predViol = append(predViol, map[string]any{"case": i, "violated": caseBad})
+			human = append(human, "PROPERTY PREDICATES VIOLATED ON THE IMPLEMENTATION: "+strings.Join(caseBad, "; "))
 		}
 		cases = append(cases, fmt.Sprintf("{| cc_max := %d; cc_calls := [\n  %s] |}", maximum, strings.Join(calls, ";\n  ")))
 		key := strings.Join(human, "|")
@@ -730,7 +879,9 @@ func genCollate(prop string, seed uint64, tier, outDir string, count int) error 
 		meta.Traces = append(meta.Traces, human)
 	}
 	meta.Cases = len(cases)
-	meta.Rule = "each case is one collator (maximum 16 or 1..4) and 1..6 value pairs from the structured universe (all leaf kinds with boundary values, any-containers and typed containers nested to depth 3): random same-shape pairs, independently rebuilt copies (maps inserted in another order), single-point mutations (leaf, add, remove, swap, rename key) and, for C08, self-containing lists (depth 1..3, with siblings); every pair is called in both argument orders; a case is distinct when its call/result trace differs from every other"
+	meta.Extra["predicate_violations"] = predViol
+	meta.Extra["cases_violating_the_property_predicates_on_the_implementation"] = len(predViol)
+	meta.Rule = "each case is one collator (maximum 16 or 1..4) and 1..6 value pairs from the structured universe (all leaf kinds with boundary values, any-containers and typed containers nested to depth 3): random same-shape pairs, independently rebuilt copies (maps inserted in another order), single-point mutations (leaf, add, remove, swap, rename key - preferring a key whose value is nil -, nil to a defined/zero value), the nil family (a fifth of the pairs: maps map[any]any / map[string]any / Map[any,any] / Map[string,any] / Catalog with a nil-valued entry against the copy, the nil-valued key renamed, the nil moved to another key, the nil replaced by a defined or zero value, renamed and defined, the entry dropped, a nil entry added; sequences differing only in nil vs 0 / \"\" / false / 0.0 / nil slice / nil map or in the position or number of nils; associations with a nil value; each also nested one or two levels; and, one directed pair in five, two adjacent leaves - 2^53 / 2^53+1, MaxInt64-1 / MaxInt64, adjacent floats, a string plus one NUL byte, or two integers whose difference overflows (MinInt64 against a positive number), or two leaves of different kinds (a byte against a wider unsigned value beyond 255, a narrow integer against a wider one beyond its range, float32 against float64) - alone or nested; for all directed pairs both RankValues and CompareValues in both orders, with what the generator knows about them - copy equal, difference unequal - checked on the answers) and, for C08, self-containing lists (depth 1..3, with siblings); every pair is called in both argument orders; a case is distinct when its call/result trace differs from every other; independently of the model the properties' own statements are evaluated on the real collator's answers (predicate_violations): for every pair reflexivity of RankValues and CompareValues, the mirror law, symmetry, the natural order the property names (nil first, false<true, numeric, byte-wise strings, proper prefix first), and Compare <=> Rank Equal for pairs without mixed integer/float widths; per case transitivity of both on all ordered triples of a pool of up to 6 values (the first two pairs and mutated neighbours of them); and the first question of the case asked again after all other calls on the same collator"
 	for i := 0; i < 3 && i < len(cases); i++ {
 		meta.Samples = append(meta.Samples, meta.Traces[i*len(cases)/3])
 	}
@@ -757,12 +908,12 @@ func genCollate(prop string, seed uint64, tier, outDir string, count int) error 
 // a second value of the same family as na (so that the pair is "of one type")
 func genSameShape(r *rng, na *node, depth int, o genOpts) *node {
 	switch {
-	case len(na.kids) == 0 && len(na.vals) == 0 && na.kind != "cyc" && !isSeqKind(na.kind) && na.kind != "gomap" && na.kind != "map" && na.kind != "catalog" && na.kind != "msi":
+	case len(na.kids) == 0 && len(na.vals) == 0 && na.kind != "cyc" && !isSeqKind(na.kind) && !isMapKind(na.kind):
 		if r.chance(1, 6) {
 			return genLeaf(r, leafKinds[r.intn(len(leafKinds))], o.allowNaN) // mixed types under any
 		}
 		return genLeaf(r, na.kind, o.allowNaN)
-	case na.kind == "ints" || na.kind == "strs" || na.kind == "flts" || na.kind == "msi" || na.kind == "lint" || na.kind == "sstr" || na.kind == "iis":
+	case na.kind == "ints" || na.kind == "strs" || na.kind == "flts" || na.kind == "msi" || na.kind == "lint" || na.kind == "sstr" || na.kind == "iis" || na.kind == "msa" || na.kind == "mapsa":
 		return genTyped(r, na.kind, o)
 	default:
 		if r.chance(1, 5) {
@@ -879,7 +1030,7 @@ func neighbourLeaf(r *rng, x *node) *node {
 // every typed container kind is a family of its own, the containers over `any` of one coarse type share one
 func elemTyping(k string) string {
 	switch k {
-	case "ints", "strs", "flts", "iis", "msi", "lint", "sstr":
+	case "ints", "strs", "flts", "iis", "msi", "lint", "sstr", "msa", "mapsa":
 		return "typed:" + k
 	}
 	return "any"
@@ -890,7 +1041,7 @@ func coarse(k string) string {
 	switch k {
 	case "slice", "nilslice", "ints", "strs", "flts", "iis":
 		return "array"
-	case "gomap", "nilmap", "msi":
+	case "gomap", "nilmap", "msi", "msa", "mapsa":
 		return "map"
 	case "lint":
 		return "list"
